@@ -235,6 +235,10 @@ class C20(Property):
             return 'C20-F1'
         if re.search(r'![{}:]', t) and sig in ('', 'template_rejects_valid'):
             return 'C20-F2'
+        if '!{' in t and sig == 'template_accepts_invalid':
+            # the same finding seen from the other side: the '{' taken as the conversion by CPython opens a nesting level
+            # here, so a later '}' that CPython reports as single is swallowed ('{!{:}}!')
+            return 'C20-F2'
         if f is not None and sig == 'template_accepts_invalid' and "unexpected '{' in field name" in str(f.detail.get('python')):
             return 'C20-F3'
         return None
